@@ -60,6 +60,10 @@ def run_job(job, rep):
             m = c.current_model()
             mcase = lambda mm: dict(kind="page", main=main, limit=core.model_val(mm, n_["limit"]), offset=core.model_val(mm, n_["offset"]))
             case = mcase(m)
+            if pr.kind == "raise" and isinstance(pr.value, NotImplementedError) and "get_dict_schema" in exc_site(pr.value):
+                # the schema builder compares field annotations with the builtin int/bool/float by identity; inside the
+                # analysed modules those names are shims, so optional-typed dataclass fields (DPT 19) are not recognised
+                rep.inconcl(f"page main {main}: dict schema of optional-typed fields is not analysable under the shimmed builtins"); return
             if pr.kind != "ok":
                 rep.ob("refuted", "list_dpts-raises:" + (exc_site(pr.value) if pr.kind == "raise" else pr.kind), case, repr(pr.value)); return
             r = pr.value
